@@ -309,6 +309,49 @@ def _check_tree(rec, base, seed, out, expected_override=None, skip_config_of=Non
     return {"eval": n_eval, "cases": len(cases), "shapes": shapes, "init_rich": n_init_rich, "hist": n_hist}
 
 
+def _device_variants(rec, idx, out):
+    """CAL_DeviceBlind: re-materialise the tree with one of the spec's MountSets moved behind symbolic links - once onto
+    the same device (control) and once onto the OTHER device - and ask every query again. Returns number of calls."""
+    nodes, seed = rec["nodes"], _G["seed"] + idx
+    kinds = {tuple(n["p"]): n["k"] for n in nodes}
+    n_eval = 0
+    for mode in ("ws", "job", "dir"):
+        mounts = rec["mounts"][mode]
+        if not mounts:
+            continue
+        bad = {}
+        for dev in ("same", "other"):
+            wdir = os.path.join(_G["root"], "w%d" % os.getpid())
+            base = os.path.join(wdir, "t%d-%s-%s" % (idx, mode, dev))
+            mroot = os.path.join(wdir if dev == "same" else os.path.join(_G["other"], "w%d" % os.getpid()), "mnt%d-%s-%s" % (idx, mode, dev))
+            os.makedirs(mroot)
+            try:
+                du.materialise(nodes, base, seed, use_api=False, mounts=mounts, mount_root=mroot)
+                for case in rec["cases"]:
+                    p = du.ap(base, case["q"])
+                    for name, f, key in _FNS:
+                        got = du.call(f, p)
+                        n_eval += 1
+                        exp = du.want(base, case[key], name == "get_job")
+                        if not du.same(got, exp):
+                            bad.setdefault(dev, {})[(name, tuple(case["q"]))] = (case, _strip(base, got), _strip(base, exp))
+            finally:
+                du.rmtree(base)
+                du.rmtree(mroot)
+        for k, (case, got, exp) in bad.get("other", {}).items():
+            same_too = k in bad.get("same", {})
+            out.append({"kind": "drift-CAL_Lexical" if same_too else "violation", "fn": k[0], "spelling": "cross-device", "q": case["q"],
+                        "qclass": "cross-device", "got": got, "exp": exp, "nodes": nodes, "seed": seed, "shape": _shape(kinds, case), "use_api": False,
+                        "extra": {"mounts": mounts, "what": "the %s director%s %s moved onto another file system behind symbolic links; "
+                                  "with the links on the same file system the answer is %s" % (mode, "ies" if len(mounts) > 1 else "y",
+                                  ["/".join(m) for m in mounts], "also wrong" if same_too else "right")}})
+        for k, (case, got, exp) in bad.get("same", {}).items():
+            if k not in bad.get("other", {}):
+                out.append({"kind": "drift-CAL_Lexical", "fn": k[0], "spelling": "cross-device", "q": case["q"], "qclass": "same-device-links", "got": got, "exp": exp,
+                            "nodes": nodes, "seed": seed, "shape": "", "use_api": False, "extra": {"mounts": mounts, "what": "links on the same device only"}})
+    return n_eval
+
+
 def _work(item):
     idx, line = item
     rec = json.loads(line)
@@ -316,6 +359,10 @@ def _work(item):
     os.makedirs(os.path.dirname(base), exist_ok=True)
     out = []
     cnt = _check_tree(rec, base, _G["seed"] + idx, out)
+    cnt["device"] = 0
+    if _G.get("other") and "mounts" in rec and du._h(_G["seed"], idx, "device") % _G["device_every"] == 0:
+        cnt["eval"] += _device_variants(rec, idx, out)
+        cnt["device"] = 1
     return cnt, out[:20]
 
 
@@ -466,7 +513,7 @@ def _signature(f):
         return "init_project:%s:%s" % ("existing-project" if f["extra"].get("existing") else "create", du.relation(f["got"], f["exp"]))
     sp = {"abs": "", "abs-alt": ":alt-spelling", "rel": ":relative", "cwd": ":cwd", "abs-after-init": ":stale-after-init_project",
           "abs-after-remove": ":stale-after-project-removed", "abs-after-project-removed": ":stale-after-project-removed",
-          "abs-after-project-restored": ":stale-after-init_project"}[f["spelling"]]
+          "abs-after-project-restored": ":stale-after-init_project", "cross-device": ""}[f["spelling"]]
     return "%s:%s:%s%s" % (f["fn"], f["qclass"], du.relation(f["got"], f["exp"]), sp)
 
 
@@ -510,8 +557,29 @@ def run(ctx):
         runs.append(("exhaustive: spines depth<=5 with a side branch and <=1 link, full branching depth<=2; 1200 pseudo-random wide trees",
                      C(5, 1, 2, 1, 1, 1200), False))
         runs.append(("exhaustive: full branching depth<=3 without links", C(1, 0, 3, 0, 0, 0), False))
-    _G.update(root=root, seed=ctx.seed)
-    total = {"eval": 0, "cases": 0, "trees": 0, "init_rich": 0, "hist": 0}
+    # CAL_DeviceBlind needs a second file system: a scratch directory on a device other than the sandbox's
+    other = None
+    import tempfile
+    for cand in ("/tmp", "/dev/shm", "/var/tmp", os.path.expanduser("~")):
+        try:
+            if os.path.isdir(cand) and os.access(cand, os.W_OK) and os.stat(cand).st_dev != os.stat(root).st_dev:
+                other = os.path.realpath(tempfile.mkdtemp(prefix="verif-C19-otherdev-", dir=cand))
+                du.assert_clean_ancestry(other)
+                break
+        except OSError:
+            continue
+    if other is None:
+        ctx.notes.append("only one writable file system found: the cross-device family (CAL_DeviceBlind) was skipped")
+    _G.update(root=root, seed=ctx.seed, other=other, device_every=8 if ctx.quick else 10)
+    try:
+        _run_body(ctx, workers, root, runs)
+    finally:
+        if other:
+            du.rmtree(other)
+
+
+def _run_body(ctx, workers, root, runs):
+    total = {"eval": 0, "cases": 0, "trees": 0, "init_rich": 0, "hist": 0, "device": 0}
     findings = []
     shapes = {}
     first_lines = []
@@ -535,6 +603,7 @@ def run(ctx):
             total["trees"] += 1
             total["init_rich"] += cnt["init_rich"]
             total["hist"] += cnt["hist"]
+            total["device"] += cnt.get("device", 0)
             for s, n in cnt["shapes"].items():
                 shapes[s] = shapes.get(s, 0) + n
             findings += fs
@@ -546,6 +615,7 @@ def run(ctx):
     ctx.cov["trees_replayed"] = total["trees"]
     ctx.cov["cases_replayed"] = total["cases"]
     ctx.cov["init_project_on_rich_existing_projects"] = total["init_rich"]
+    ctx.cov["cross_device_trees"] = {"trees": total["device"], "other_device_dir": os.path.dirname(_G["other"]) if _G.get("other") else None}
     ctx.cov["same_process_histories"] = total["hist"]   # query all -> init_project / remove project -> query all -> undo -> query all
     if total["init_rich"] == 0:
         raise core.MachineryError("no init_project call on a project with configuration entries, documents, cache and jobs")
@@ -588,6 +658,24 @@ def run(ctx):
 def replay(ctx, data):
     import signac
     base = os.path.join(os.path.realpath(ctx.mkdtemp("replay")), "t")
+    if data["spelling"] == "cross-device":
+        import tempfile
+        other = next((c for c in ("/tmp", "/dev/shm", "/var/tmp") if os.path.isdir(c) and os.access(c, os.W_OK)
+                      and os.stat(c).st_dev != os.stat(ctx.work).st_dev), None)
+        if other is None:
+            print("no second file system available")
+            return 2
+        mroot = os.path.realpath(tempfile.mkdtemp(prefix="verif-C19-otherdev-", dir=other))
+        try:
+            du.materialise(data["nodes"], base, data["seed"], use_api=False, mounts=data["extra"]["mounts"], mount_root=mroot)
+            f = dict((n, g) for n, g, _k in _FNS)[data["fn"]]
+            got = _strip(base, du.call(f, du.ap(base, data["q"])))
+            print("moved onto", other, ":", ["/".join(m) for m in data["extra"]["mounts"]])
+            print("%s(%s) ->" % (data["fn"], "/".join(data["q"])), got)
+            print("specification (CAL_DeviceBlind):", data["exp"])
+            return 0 if du.same(got, tuple(data["exp"])) else 1
+        finally:
+            du.rmtree(mroot)
     du.materialise(data["nodes"], base, data["seed"], use_api=data.get("use_api", True))
     q = du.ap(base, data["q"])
     fn = data["fn"]
